@@ -30,8 +30,9 @@ pub fn registry() -> &'static [Builder] {
 pub fn assumptions() -> Vec<String> {
     [
         "documented range = setter doc comment + struct-level parameter table + crate-level docs + text of the crate's parameter-error variants (DESIGN Appendix A, every row re-read on the pinned tree)",
-        "all generated values are finite, no NaN / inf / -0.0; every builder is instantiated with f64 (CountVectorizer: its native f32, grid values exactly representable)",
-        "'just below / just inside' a bound = the adjacent representable number (0 -> +-f64::MIN_POSITIVE, f32::MIN_POSITIVE for f32 parameters)",
+        "all generated values are finite (no NaN / inf); every builder is instantiated with f64 (CountVectorizer: its native f32, grid values exactly representable)",
+        "'just below / just inside' a bound = the adjacent representable number; at 0 both the smallest normal and the smallest denormal number of either sign (f64: +-2.2e-308, +-5e-324; f32 parameters: +-1.2e-38, +-1.4e-45)",
+        "-0.0 is on the grid of every float parameter whose grid holds 0.0, as a consistency-only value (verdict not asserted: the docs say nothing about the sign of zero); by-value = by-reference (verdict, error text, checked value), parameters unchanged (compared bit for bit), and entry point = that verdict are asserted in full",
         "verdict NOT asserted (consistency obligations only) where the documentation disagrees with itself or is silent at the bound: value 0 of elastic-net tolerance (table '(0, inf)' vs error list 'negative'), elastic-net max_iterations = 0 (table '[1, inf)' vs documented error list without such an error), logistic alpha = 0 and FTRL alpha = 0 and FastICA tol = 0 and Platt minstep/sigma = 0 ('positive' while 0 is accepted), GMM reg_covar = 0 (setter 'non-negative' vs error text 'must be positive'), SVM nu = 0 (setter '[0, 1]' vs crate docs '(0, 1]'), SVM solver eps = 0 and hierarchical max_distance = 0 (no wording for the bound), t-SNE approx_threshold = 0 ('range (0, inf) where a value of 0 disables approximation'), SVR loss epsilon <= 0 (no documented range), decision-tree min_impurity_decrease in (0, machine eps)",
         "FTRL beta = 0 is treated as in range (documented default) although the wording is 'positive'",
         "parameters without a documented range stay at their defaults and are not part of any verdict: iteration caps of logistic regression / Tweedie / FastICA / t-SNE, min_weight_split, min_weight_leaf, max_depth, SVR-nu regulariser c, k-means init method, kernels",
